@@ -1,5 +1,214 @@
+//! Workload "crash" (C15): an interrupted write is never mistaken for a complete file.
+//! A small writer program runs once on a recording device; for every prefix of its device
+//! writes and for cut positions inside the next write (torn writes) the crash image is built
+//! and judged against the completed file. Also: the writer dropped without finalize after
+//! every item.
+
+use crate::dev::{Dev, OpKind};
+use crate::json::J;
+use crate::obs::*;
+use crate::rng::Rng;
+use crate::scene::*;
+use crate::w_crc::{baseline, judge_variant, Baseline};
 use crate::{Args, Reporter};
-pub fn run(_a: &Args, _rep: &mut Reporter) {
-    eprintln!("workload not built yet");
-    std::process::exit(2);
+use e57::*;
+use std::io::Cursor;
+
+fn small_scene(r: &mut Rng, cover: &mut crate::Cover) -> Scene {
+    let mut k = Knobs::base();
+    k.max_items = 4;
+    k.big_points = false;
+    k.max_records = 8;
+    let mut s = gen_scene(r, &k, cover);
+    let mut has = false;
+    for it in s.items.iter_mut() {
+        match it {
+            Item::Pc(pc) => {
+                has = true;
+                pc.meta.intensity_limits = None;
+                pc.meta.color_limits = None;
+                if pc.points.len() > 40 {
+                    pc.points.truncate(40);
+                }
+            }
+            Item::Blob(b) => b.truncate(1800),
+            _ => {}
+        }
+    }
+    if !has {
+        let mut k2 = k.clone();
+        k2.max_items = 1;
+        let pc = gen_pc(r, &k2, &[], cover);
+        s.items.push(Item::Pc(PcSpec { meta: PcMeta::default(), ..pc }));
+    }
+    s
+}
+
+struct W {
+    pos: u64,
+    data: Vec<u8>,
+    call: u32,
+}
+
+fn build_image(ws: &[W], k: usize, cut: usize) -> Vec<u8> {
+    let mut img: Vec<u8> = Vec::new();
+    let put = |img: &mut Vec<u8>, pos: u64, d: &[u8]| {
+        let p = pos as usize;
+        if p + d.len() > img.len() {
+            img.resize(p + d.len(), 0);
+        }
+        img[p..p + d.len()].copy_from_slice(d);
+    };
+    for w in &ws[..k] {
+        put(&mut img, w.pos, &w.data);
+    }
+    if cut > 0 && k < ws.len() {
+        let c = cut.min(ws[k].data.len());
+        put(&mut img, ws[k].pos, &ws[k].data[..c]);
+    }
+    img
+}
+
+fn judge_image(img: &[u8], base: &Baseline, before_finalize: bool, r: &mut Rng) -> (bool, Option<(String, String)>) {
+    // accepted?
+    let rd = guarded(|| E57Reader::new(Cursor::new(img.to_vec())));
+    match rd {
+        Err(p) => return (false, Some((format!("panic/E57Reader::new/{}", panic_sig(&p)), p))),
+        Ok(Err(_)) => return (false, None),
+        Ok(Ok(rd)) => {
+            if before_finalize {
+                return (true, Some(("accepted-before-finalize".into(), format!("an image from before the top-level finalize call was accepted ({} bytes); it lists {} point clouds and {} images", img.len(), rd.pointclouds().len(), rd.images().len()))));
+            }
+        }
+    }
+    // accepted: listing and all reads must match the completed file (judge_variant re-opens and compares everything)
+    let o = judge_variant(img, base, r, false, "crash-image");
+    let v = o.viol.map(|(s, d)| {
+        // validate_crc is not part of this property
+        (s, d)
+    });
+    (true, v)
+}
+
+pub fn run(a: &Args, rep: &mut Reporter) {
+    let (done, reason) = crate::run_cases(a, rep, |idx, cs, rep| {
+        let mut r = Rng::new(cs);
+        let mut cover = std::mem::take(&mut rep.cover);
+        let scene = small_scene(&mut r, &mut cover);
+        let dev = Dev::empty();
+        dev.set_record(true, true);
+        let run = run_scene(&scene, dev.clone(), Judge::Conforming);
+        if !run.finalized {
+            rep.stat("programs_not_finalized", 1);
+            rep.cover = cover;
+            return;
+        }
+        let ops = dev.take_ops();
+        let complete = dev.bytes();
+        let fin_call = run.finalize_call_no.unwrap_or(u32::MAX);
+        let ws: Vec<W> = ops.iter().filter(|o| o.kind == OpKind::Write && o.ok && o.data.as_ref().map_or(false, |d| !d.is_empty())).map(|o| W { pos: o.pos, data: o.data.clone().unwrap_or_default(), call: o.api_call }).collect();
+        // the replayed full sequence must reproduce the completed file (self-check of the recorder)
+        if build_image(&ws, ws.len(), 0) != complete {
+            rep.inconclusive(idx, "recorded write sequence does not reproduce the completed file");
+            rep.cover = cover;
+            return;
+        }
+        let extra: Vec<Blob> = run.blobs.iter().map(|(b, _)| b.clone()).collect();
+        let base = match baseline(&complete, &extra) {
+            Some(b) => b,
+            None => {
+                rep.stat("baseline_failed", 1);
+                rep.cover = cover;
+                return;
+            }
+        };
+        rep.stat("programs", 1);
+        rep.stat("device_writes", ws.len() as u64);
+        cover.hit_num("program_shape", crate::rng::hash_str(&format!("{:?}", run.calls.iter().map(|c| c.op.clone()).collect::<Vec<_>>())) >> 8);
+        let first_fin_write = ws.iter().position(|w| w.call >= fin_call).unwrap_or(ws.len());
+        let mut images = 0u64;
+        let mut rejected = 0u64;
+        let mut accepted_equal = 0u64;
+        for k in 0..=ws.len() {
+            let mut cuts: Vec<usize> = vec![0];
+            if k < ws.len() {
+                let len = ws[k].data.len();
+                for c in [1usize, 8, 16, 24, 32, 33, 34, 40, 47, 48, 49, 512, 1019, 1020, 1021, 1022, 1023] {
+                    if c < len {
+                        cuts.push(c);
+                    }
+                }
+                if ws[k].pos == 0 {
+                    for c in 1..48.min(len) {
+                        cuts.push(c);
+                    }
+                }
+                if len > 2 {
+                    cuts.push(1 + r.usize(len - 1));
+                    cuts.push(1 + r.usize(len - 1));
+                }
+                cuts.sort();
+                cuts.dedup();
+            }
+            for cut in cuts {
+                let img = build_image(&ws, k, cut);
+                // "before finalize" = no byte of a write issued by the finalize call has reached the device
+                let before = k < first_fin_write || (k == first_fin_write && cut == 0);
+                images += 1;
+                let kind = if k >= ws.len() { "complete" } else if ws[k].call >= fin_call { if ws[k].pos == 0 { "finalize-header-page" } else { "finalize-xml" } } else if ws[k].pos + (ws[k].data.len() as u64) < complete.len() as u64 && k > 0 && ws[k].pos < ws[k - 1].pos { "patch-back" } else { "append" };
+                let cutc = match cut {
+                    0 => "whole-writes",
+                    1..=47 => "torn<48",
+                    48..=1019 => "torn-payload",
+                    _ => "torn-checksum",
+                };
+                cover.hit(&format!("cut:{}:{}", kind, cutc));
+                let (accepted, v) = judge_image(&img, &base, before, &mut r);
+                if accepted {
+                    if v.is_none() {
+                        accepted_equal += 1;
+                    }
+                } else {
+                    rejected += 1;
+                }
+                if let Some((sig, d)) = v {
+                    rep.violation("C15", &sig, idx, &format!("program {:?}; image = {} complete device writes + {} bytes of write #{} ({} of {} bytes at {}): {}", run.calls.iter().map(|c| c.op.as_str()).collect::<Vec<_>>(), k, cut, k, cutc, ws.get(k).map_or(0, |w| w.data.len()), ws.get(k).map_or(0, |w| w.pos), d));
+                }
+            }
+        }
+        // drop without finalize after every item prefix
+        for j in 0..=scene.items.len() {
+            let mut s2 = scene.clone();
+            s2.items.truncate(j);
+            s2.no_finalize = true;
+            // also: abandon the last point cloud / image writer in the middle
+            if j > 0 && r.bool() {
+                match s2.items.last_mut() {
+                    Some(Item::Pc(pc)) => pc.abandon = true,
+                    Some(Item::Img(im)) => im.abandon = true,
+                    _ => {}
+                }
+            }
+            let d2 = Dev::empty();
+            let _ = run_scene(&s2, d2.clone(), Judge::Conforming);
+            let img = d2.bytes();
+            images += 1;
+            cover.hit("cut:dropped-without-finalize");
+            let (accepted, v) = judge_image(&img, &base, true, &mut r);
+            if !accepted {
+                rejected += 1;
+            }
+            if let Some((sig, d)) = v {
+                rep.violation("C15", &format!("dropped/{}", sig), idx, &format!("writer dropped without finalize after {} of {} items: {}", j, scene.items.len(), d));
+            }
+        }
+        rep.stat("images_built", images);
+        rep.stat("images_rejected", rejected);
+        rep.stat("images_accepted_and_equal", accepted_equal);
+        if rep.samples < rep.max_samples {
+            rep.sample(J::obj().set("case", J::i(idx as i128)).set("calls", J::Arr(run.calls.iter().take(20).map(|c| J::s(&c.op)).collect())).set("device_writes", J::u(ws.len())).set("first_write_of_finalize", J::u(first_fin_write)).set("images", J::i(images as i128)));
+        }
+        rep.cover = cover;
+    });
+    rep.finish(done, reason);
 }
